@@ -52,7 +52,7 @@ CLAIMED = {
              "replaying every connectivity check a real agent receives in simulation through the Lean kernel. Convergence to "
              "READY on mirrored pairs is NOT proved: it is explored by simulating two real NiceAgents (virtual clock and UDP "
              "network, loss respecting the property's hypothesis, random signalling interleavings). Two genuine deviations of "
-             "libnice are recorded as known findings (K1 candidates-before-credentials, K2 aggressive nomination + peer-reflexive).",
+             "libnice are recorded as known findings (K1 candidates-before-credentials, K2 aggressive nomination + peer-reflexive). The tie-breaker guard of the role-conflict decision is REGENERATED from stun/usages/ice.c on every run (Gen.RoleConflict.switches) and used by the model the convergence theorems are proved about.",
         note="Trusted: Lean kernel, hand-written IceRole kernels + role monitor, sim_drv (interposed clock/sendmsg/recvmsg/poll, "
              "scripted interface list, deterministic RNG), UDP host candidates only.",
         technique="Lean 4 proof of role-resolution invariants (message-history system) + trace monitor + simulation of real agents",
@@ -237,7 +237,7 @@ CLAIMED = {
              "completely when the permission answer arrives or times out, and no relay byte string makes the receive path fault. "
              "Tied to the real nice_udp_turn_socket over a scripted base with request timers on the virtual clock, 401/438 rounds, "
              "orders of permission/channel-bind completion, hostile relay datagrams in exactly-sized buffers. Two genuine defects "
-             "were fixed; one (RFC 3489-style padding counted in the DATA length in GOOGLE/MSN mode) is a known finding.",
+             "were fixed; one (RFC 3489-style padding counted in the DATA length in GOOGLE/MSN mode) is a known finding. Additionally a theorem about the skeleton of socket/udp-turn.c socket_send_message that tools/extract_flow.py REGENERATES from the source on every run: on an RFC 5766 socket a wrapped message leaves towards the relay only with a permission for that peer (C16_no_send_without_permission).",
         note="Trusted: Lean kernel, Turn model + Relay spec + sock_drv; MSN/OC2007 encodings, the reliable re-framing and refresh "
              "timers are outside the model; STUN encodings rely on C04-C07.",
         technique="Lean 4 round-trip proof against a reference relay + differential correspondence with scripted relay",
